@@ -127,7 +127,7 @@ impl Sub for Faults {
             .boxed()
     }
     fn mandatory_labels(&self, _t: Tier) -> Vec<&'static str> {
-        vec!["fired@indexer", "fired@updater", "fired@merge", "fired@compressor", "api_error_surfaced", "commit_ok_after_fault", "recover:rollback", "recover:drop"]
+        vec!["fired@indexer", "fired@updater", "fired@merge", "fired@compressor", "api_error_surfaced", "commit_ok_after_fault", "recover:rollback", "recover:drop", "no_leftover_checked_after_recovery", "delete_fault_fired_then_no_leftover_checked"]
     }
     fn run(&self, c: &FaultCase, cx: &Ctx) -> CaseResult {
         // write the case where the child can read it
@@ -304,6 +304,11 @@ fn account(cx: &Ctx, v: &Value, f: &FaultSpec, fingerprint: u64) {
     if v.get("gc_after_failure").and_then(|b| b.as_bool()).unwrap_or(false) {
         cx.label("gc_after_failed_call");
     }
+    if v.get("leak_checked").and_then(|b| b.as_bool()).unwrap_or(false) {
+        cx.label("no_leftover_checked_after_recovery");
+        let delete_fired = v.get("fired_by").and_then(|m| m.as_object()).map(|m| m.keys().any(|k| k.starts_with("Delete"))).unwrap_or(false);
+        cx.label_if(delete_fired, "delete_fault_fired_then_no_leftover_checked");
+    }
     if let Some(r) = v.get("recovered_by").and_then(|r| r.as_str()) {
         cx.label(&format!("recover:{r}"));
     }
@@ -362,7 +367,7 @@ pub fn child_main(args: &[String]) -> i32 {
         let v = match res {
             Ok(r) => json!({
                 "fired": r.fired, "fired_by": r.fired_by, "api_error": r.api_error, "commit_ok_after_fault": r.commit_ok_after_fault,
-                "recovered_by": r.recovered_by, "fired_after_first_call": r.fired_after_first_call, "merged_after_failure": r.merged_after_failure, "gc_after_failure": r.gc_after_failure, "failure": Value::Null,
+                "recovered_by": r.recovered_by, "fired_after_first_call": r.fired_after_first_call, "merged_after_failure": r.merged_after_failure, "gc_after_failure": r.gc_after_failure, "leak_checked": r.leak_checked, "failure": Value::Null,
             }),
             Err(fl) => json!({"fired": 1, "failure": {"sig": fl.sig, "detail": fl.detail}}),
         };
@@ -395,6 +400,7 @@ struct RunReport {
     reused_commit_ok: bool,
     merged_after_failure: bool,
     gc_after_failure: bool,
+    leak_checked: bool,
     fired_after_first_call: bool,
     log_kinds: Vec<(K, String, String)>,
     /// (thread, path) of every read of an opened file, in order (dry run only)
@@ -639,6 +645,47 @@ fn run_history(case: &FaultCase, fault: Option<(FaultRule, bool, bool, bool, boo
         verify_searcher(&reader.searcher(), &f, &exp, "after_fault+commit").map_err(|fl| Failure::new(format!("after_fault:continue:{}", fl.sig), fl.detail))?;
     }
     w.wait_merging_threads().or_fail("after_fault:wait_merging_threads_failed")?;
+    // (e) a swallowed error has no lasting side effect: the storage is healthy again, so after one more garbage
+    // collection nothing is left of the failed work - in particular a file whose deletion failed once is still managed
+    // and is collected now.  (Without a merge policy only: a policy merge that outlives the dropped writer registers
+    // its files through the old Index handle, a known C10 finding.)
+    if case.cfg.policy == Policy::NoMerge {
+        let w2 = crate::util::writer(&fresh, crate::util::WriterCfg::default()).or_fail("after_fault:new_writer_failed")?;
+        let mut last: Option<Failure> = None;
+        for attempt in 0..4u64 {
+            w2.garbage_collect_files().wait().or_fail("after_fault:gc_failed")?;
+            let present: std::collections::BTreeSet<String> = sd.file_names().into_iter().filter(|p| !p.starts_with('.')).collect();
+            let managed: std::collections::BTreeSet<String> = fresh.directory().list_managed_files().iter().map(|p| p.to_string_lossy().to_string()).filter(|p| !p.starts_with('.')).collect();
+            let mut allowed: std::collections::BTreeSet<String> = std::collections::BTreeSet::new();
+            {
+                let metas = fresh.searchable_segment_metas().or_fail("after_fault:metas_failed")?;
+                for m in &metas {
+                    for f in m.list_files() {
+                        allowed.insert(f.to_string_lossy().to_string());
+                    }
+                }
+            }
+            allowed.insert("meta.json".to_string());
+            let orphans: Vec<&String> = present.difference(&allowed).collect();
+            if orphans.is_empty() {
+                last = None;
+                break;
+            }
+            let unmanaged: Vec<&&String> = orphans.iter().filter(|o| !managed.contains(**o)).collect();
+            let hist = orphans.first().map(|o| file_history(&sd.clone_log(), &o[..o.len().min(32)])).unwrap_or_default();
+            last = Some(if !unmanaged.is_empty() {
+                Failure::new("after_fault:file_left_unmanaged", format!("(api error: {failed_api:?}) after recovery, a commit and a garbage collection on healthy storage these files exist, belong to no segment and are not managed (never collected): {unmanaged:?}; history:{hist}"))
+            } else {
+                Failure::new("after_fault:orphan_after_gc", format!("(api error: {failed_api:?}) after recovery, a commit and a garbage collection on healthy storage these files belong to no segment: {orphans:?}; history:{hist}"))
+            });
+            std::thread::sleep(Duration::from_millis(20 * (attempt + 1)));
+        }
+        drop(w2);
+        if let Some(f) = last {
+            return Err(f);
+        }
+        rep.leak_checked = true;
+    }
     Ok(rep)
 }
 
